@@ -5,6 +5,7 @@ import (
 	"go/constant"
 	"go/token"
 	"go/types"
+	"os"
 	"slices"
 	"strings"
 
@@ -69,6 +70,8 @@ type frame struct {
 	curInstr         ssa.Instruction
 	deferred         map[*ssa.UnOp]bool
 }
+
+var traceFn = os.Getenv("GOSYM_TRACE")
 
 // targetPanic is a Go panic of the interpreted program.
 type targetPanic struct{ v Value }
@@ -214,6 +217,15 @@ func (fr *frame) visit(instr ssa.Instruction) continuation {
 		e.abort("budget", "step budget %d exhausted at %s", e.M.Cfg.MaxSteps, e.where())
 	}
 	fr.curInstr = instr
+	if traceFn != "" && strings.Contains(fr.fn.String(), traceFn) {
+		defer func() {
+			if v, ok := instr.(ssa.Value); ok {
+				fmt.Fprintf(os.Stderr, "TRACE %s: %s = %s  => %s\n", fr.fn.Name(), v.Name(), instr, describe(fr.env[v]))
+			} else {
+				fmt.Fprintf(os.Stderr, "TRACE %s: %s\n", fr.fn.Name(), instr)
+			}
+		}()
+	}
 	switch instr := instr.(type) {
 	case *ssa.DebugRef:
 
@@ -278,7 +290,7 @@ func (fr *frame) visit(instr ssa.Instruction) continuation {
 			e.goPanic("invalid memory address or nil pointer dereference")
 		}
 		e.noteWrite(p)
-		*p = copyVal(fr.get(instr.Val))
+		storeInto(p, fr.get(instr.Val))
 
 	case *ssa.If:
 		c := fr.get(instr.Cond).(sym.Sc)
@@ -598,4 +610,41 @@ func (e *Exec) typeAssert(instr *ssa.TypeAssert, itf Iface) Value {
 		panic(targetPanic{Iface{T: e.M.runtimeErrT, V: litString(msg)}})
 	}
 	return v
+}
+
+// storeInto assigns v to *p. Aggregates are copied element-wise into the
+// existing storage, so that addresses of fields/elements taken earlier stay
+// valid (go/ssa takes &x.f before storing a composite literal into *x).
+func storeInto(p *Value, v Value) {
+	switch nv := v.(type) {
+	case Struct:
+		if old, ok := (*p).(Struct); ok && len(old) == len(nv) {
+			for i := range nv {
+				storeInto(&old[i], nv[i])
+			}
+			return
+		}
+	case Array:
+		if old, ok := (*p).(Array); ok && old.St != nv.St {
+			seen := map[int]bool{}
+			for i := range nv.St.cells {
+				seen[i] = true
+				storeInto(old.St.cell(i), nv.St.peek(i))
+			}
+			for i := range old.St.cells {
+				if !seen[i] {
+					storeInto(old.St.cell(i), nv.St.peek(i))
+				}
+			}
+			if nv.St.lit != "" {
+				for i := 0; i < len(nv.St.lit); i++ {
+					if !seen[i] {
+						storeInto(old.St.cell(i), nv.St.peek(i))
+					}
+				}
+			}
+			return
+		}
+	}
+	*p = copyVal(v)
 }
